@@ -18,16 +18,16 @@ EXTENDS Projective, TLC, FiniteSets
 VARIABLES p, done
 
 FP    == 0..(P - 1)
-Aff   == {<<x, y>> \in FP \X FP : (y * y) % P = (x * x * x + B) % P}
-Reps  == {<<0, y, 0>> : y \in 1..(P - 1)}
-         \cup {<<(a[1] * z) % P, (a[2] * z) % P, z>> : a \in Aff, z \in 1..(P - 1)}
-InvT  == [z \in FP |-> FInv(z)]                          \* memoised inverse
+Aff   == TLCEval({<<x, y>> \in FP \X FP : (y * y) % P = (x * x * x + B) % P})
+Reps  == TLCEval({<<0, y, 0>> : y \in 1..(P - 1)}
+         \cup {<<(a[1] * z) % P, (a[2] * z) % P, z>> : a \in Aff, z \in 1..(P - 1)})
+InvT  == TLCEval([z \in FP |-> FInv(z)])                          \* memoised inverse
 Aff0(r) == IF r[3] = 0 THEN Inf ELSE <<(r[1] * InvT[r[3]]) % P, (r[2] * InvT[r[3]]) % P>>
 ValidR(r) == r \in Reps
 
-QSet == IF IOEnv.VERIF_MCFULL = "1" THEN Reps
+QSet == TLCEval(IF IOEnv.VERIF_MCFULL = "1" THEN Reps
         ELSE {FromAff(a) : a \in Aff} \cup {<<0, y, 0>> : y \in {1, 2, P - 1}}
-             \cup {<<(a[1] * z) % P, (a[2] * z) % P, z>> : a \in Aff, z \in {2, P - 1}}
+             \cup {<<(a[1] * z) % P, (a[2] * z) % P, z>> : a \in Aff, z \in {2, P - 1}})
 
 RepsOf(a) == IF IsInf(a) THEN {<<0, y, 0>> : y \in 1..(P - 1)}
              ELSE {<<(a[1] * z) % P, (a[2] * z) % P, z>> : z \in 1..(P - 1)}
